@@ -560,10 +560,138 @@ def h_decor(sp, shape='chain3', nnames=2):
     sp.done()
 
 
+# ------------------------------------------------------------------------------------------ late mappings
+def _tagged(name, version):
+    def method(self, *args, **kwargs):
+        type(self).log.append((self, name, version, args, kwargs))
+    method.__name__ = name
+    return method
+
+
+LATE_KINDS = ['instance-level __events__', 're-decorated class', 'method replaced on the class']
+
+
+def h_late(sp, nnames=2, kinds=(0, 1, 2)):
+    """Every registered handler is served through ITS OWN mapping.  A class K is created on this path (so no
+    process-wide state can know it), instance x is registered on d1; then the mapping of the next instance y of the
+    same class is made to differ (instance-level __events__ / K decorated again / a callback replaced on K) and y
+    is registered on d1, on a second dispatcher d2, or on both.  Every event is dispatched on both dispatchers."""
+    names = NAMES[:nnames]
+    methods = NAMES + ['m1', 'm2']
+    body = {m: _tagged(m, 1) for m in methods}
+    body['log'] = []
+    K = type('K', (object,), body)
+    spec1 = [sp.pick(SPEC[:3], 'K.%s' % ev) for ev in names]
+    map_x = {ev: (ev if s_ == 'positional' else s_[4:]) for ev, s_ in zip(names, spec1) if s_ != 'absent'}
+    sp.assume(bool(map_x))
+    event_handler(*[ev for ev in map_x if map_x[ev] == ev], **{ev: m for ev, m in map_x.items() if m != ev})(K)
+    sp.note('class K decorated with %r' % (map_x,))
+    d1, d2 = EventDispatcher(), EventDispatcher()
+    x = K()
+    d1.add_handler(x)
+    sp.note('d1.add_handler(x)')
+    kind = LATE_KINDS[sp.pick(list(kinds), 'kind')]
+    version_y = {m: 1 for m in methods}         # which version of each method y has to be served through
+    open_x = set()                              # events of x whose outcome the statement leaves open
+    if kind == 'instance-level __events__':
+        spec2 = [sp.pick(SPEC, 'y.%s' % ev) for ev in names]
+        map_y = {ev: (ev if s_ == 'positional' else s_[4:]) for ev, s_ in zip(names, spec2) if s_ != 'absent'}
+        sp.assume(bool(map_y))
+        y = K()
+        y.__events__ = dict(map_y)
+        sp.note('y = K(); y.__events__ = %r' % (map_y,))
+        sp.cover('instance-level-events')
+    elif kind == 're-decorated class':
+        spec2 = [sp.pick(SPEC, 'K again.%s' % ev) for ev in names]
+        extra = {ev: (ev if s_ == 'positional' else s_[4:]) for ev, s_ in zip(names, spec2) if s_ != 'absent'}
+        sp.assume(bool(extra))
+        event_handler(*[ev for ev in extra if extra[ev] == ev], **{ev: m for ev, m in extra.items() if m != ev})(K)
+        map_y = dict(map_x)
+        map_y.update(extra)
+        open_x = {ev for ev in map_y if map_y.get(ev) != map_x.get(ev)}
+        y = K()
+        sp.note('K decorated again with %r; y = K()' % (extra,))
+        sp.cover('redecorated')
+    else:
+        victim = sp.pick(sorted(set(map_x.values())), 'replaced-method')
+        setattr(K, victim, _tagged(victim, 2))
+        version_y[victim] = 2
+        map_y = dict(map_x)
+        open_x = {ev for ev, m in map_x.items() if m == victim}     # x: old or new function, not stated
+        y = K()
+        sp.note('K.%s replaced; y = K()' % victim)
+        sp.cover('method-replaced')
+    if map_y != map_x:
+        sp.cover('mapping-differs')
+        if set(map_y) - set(map_x):
+            sp.cover('y-listens-to-more')
+        if set(map_x) - set(map_y):
+            sp.cover('y-listens-to-less')
+        if any(map_y[ev] != map_x[ev] for ev in map_y if ev in map_x):
+            sp.cover('y-renamed-callback')
+    where = sp.pick(['d1', 'd2', 'd1 and d2'], 'y-registered-on')
+    on = {'d1': {'x'}, 'd2': set()}
+    for tag, d in (('d1', d1), ('d2', d2)):
+        if tag in where:
+            d.add_handler(y)
+            on[tag].add('y')
+            sp.note('%s.add_handler(y)' % tag)
+    if 'd2' in where:
+        sp.cover('second-dispatcher')
+
+    def round_(when):
+        for tag, d in (('d1', d1), ('d2', d2)):
+            for ev in names + ['nobody']:
+                del K.log[:]
+                token = object()
+                try:
+                    d.dispatch(ev, token, key=token)
+                except Exception as ex:     # noqa
+                    sp.fail('dispatch-raises', '%s: %s.dispatch(%r) raised %r' % (when, tag, ev, ex))
+                for who, inst, mapping in (('x', x, map_x), ('y', y, map_y)):
+                    calls = [c for c in K.log if c[0] is inst]
+                    what = '%s: %s.dispatch(%r): %s' % (when, tag, ev, who)
+                    if who not in on[tag]:
+                        sp.check(not calls, 'spurious-call', '%s is not registered there but got %r'
+                                 % (what, [c[1] for c in calls]))
+                        continue
+                    if who == 'x' and ev in open_x:
+                        sp.check(len(calls) <= 1, 'duplicate', '%s got %d calls' % (what, len(calls)))
+                        continue
+                    if ev not in mapping:
+                        sp.check(not calls, 'spurious-call', '%s does not map this event (its mapping: %r) but got %r'
+                                 % (what, mapping, [c[1] for c in calls]))
+                        continue
+                    sp.check(len(calls) == 1, 'missed' if not calls else 'duplicate',
+                             '%s maps it to %s (its mapping: %r) and got %d calls' % (what, mapping[ev], mapping,
+                                                                                      len(calls)))
+                    _, mname, version, args, kwargs = calls[0]
+                    sp.check(mname == mapping[ev], 'wrong-method', '%s maps it to %s but %s was called (its mapping: '
+                             '%r)' % (what, mapping[ev], mname, mapping))
+                    if who == 'y':
+                        sp.check(version == version_y[mname], 'wrong-method', '%s was served through version %d of '
+                                 'K.%s, but K.%s was at version %d when y was registered'
+                                 % (what, version, mname, mname, version_y[mname]))
+                    sp.check(args == (token,) and args[0] is token and list(kwargs) == ['key']
+                             and kwargs['key'] is token, 'args', '%s: arguments altered' % what)
+                    sp.cover('late-delivered')
+
+    round_('after registering y')
+    d1.remove_handler(x)
+    on['d1'].discard('x')
+    sp.note('d1.remove_handler(x)')
+    sp.check(not d1.is_handler(x) and d1.is_handler(y) is ('y' in on['d1']) and d2.is_handler(y) is ('y' in on['d2']),
+             'is_handler', 'is_handler wrong after removing x')
+    round_('after removing x')
+    sp.done()
+
+
 HIST_TAGS = ['delivered', 'removed-during-dispatch', 'added-during-dispatch', 'nested-dispatch', 'double-add',
              'removed-before', 'two-listeners', 'nobody-listens', 'remove-unregistered']
 TWIN_TAGS = ['two-twins-served', 'twin-added-next-to-registered-twin', 'twin-removed-next-to-registered-twin',
              'unregistered-twin-removed']
+LATE_TAGS = ['instance-level-events', 'redecorated', 'method-replaced', 'mapping-differs', 'y-listens-to-more',
+             'y-listens-to-less', 'y-renamed-callback', 'second-dispatcher', 'late-delivered']
 HARNESSES = {
     # shape H (from the empty dispatcher) and shape I + >=2 operations
     'history': dict(fn=h_history, nontrivial=HIST_TAGS[1:7] + ['dispatch-after-active-dispatch'],
@@ -571,6 +699,7 @@ HARNESSES = {
     # shape I + one operation
     'state': dict(fn=h_history, nontrivial=HIST_TAGS[1:7], required=HIST_TAGS),
     'twins': dict(fn=h_twins, nontrivial=TWIN_TAGS, required=TWIN_TAGS),
+    'late': dict(fn=h_late, nontrivial=['mapping-differs', 'method-replaced'], required=LATE_TAGS),
     'decor': dict(fn=h_decor, nontrivial=['override', 'extend', 'empty-decoration'],
                   required=['override', 'extend', 'empty-decoration', 'several-classes-listen']),
     'decor-mi': dict(fn=h_decor, nontrivial=['multiple-inheritance'],
@@ -587,6 +716,7 @@ TIERS = {
         ('state', dict(n=3, build=True, steps=1, pre=(0, 1, 2, 3), shapes=(0, 5))),
         ('state', dict(n=3, build=True, steps=1, pre=(1,), menu=('none', 'rm next', 'disp'), shapes=(5,),
                        flavours=(0, 1, 2, 3)), {'required': FLAVOUR_TAGS}),
+        ('late', dict(nnames=2)),
         ('twins', dict(n=2, build=False, steps=3)),
         ('twins', dict(n=3, build=True, steps=1, pre=(0, 1, 3), shapes=(5,))),
         ('decor', dict(shape='chain3', nnames=2)),
@@ -604,6 +734,7 @@ TIERS = {
         ('decor', dict(shape='chain3', nnames=2)),
         ('decor', dict(shape='siblings', nnames=2)),
         ('decor-mi', dict(shape='two-roots', nnames=2)),
+        ('late', dict(nnames=3)),
         ('twins', dict(n=3, build=False, steps=4)),
         ('twins', dict(n=3, build=True, steps=2, shapes=(5,))),
         ('decor-mi', dict(shape='diamond', nnames=2)),
@@ -628,12 +759,15 @@ BOUNDS = {
              'actions, 3 argument shapes, listener order h0<h1<h2 and its reverse; I: 4 registration histories per '
              'handler + 1 op with 5 nested actions, 2 shapes; nesting depth 2; I (all registered) + 1 op with every handler '
              'instance plain / __bool__ False / __len__ 0 / __eq__ always True (4^3 combinations, 3 actions, 1 shape).  '
+             'late mappings: a class created on the path, instance x registered, then the mapping of the next instance '
+             'y differs (instance-level __events__ / class decorated again / callback replaced on the class; 2 event '
+             'names), y on d1, d2 or both, all events on both dispatchers, again after removing x.  '
              'twins (equal and hash-equal handlers): 2 twins H(3), 3 twins I + 1 op.  '
              'decor: chain of 3, siblings, two roots '
              'over 2 event names; chain of 2 over 3 names; 4 decoration kinds per (class, name)',
     'thorough': 'history: H(4); I + 1 op under all 6 listener orders; I + 1 op with 7 nested actions and 6 shapes; '
                 'I (3 histories per handler) + 2 ops (2 shapes, 2 listener orders); I (3 histories) + 1 op with the 4^3 '
-                'instance flavours, 5 actions, 2 shapes; twins: 3 twins H(4) and I + 2 ops.  decor: additionally the diamond '
+                'instance flavours, 5 actions, 2 shapes; late mappings over 3 event names; twins: 3 twins H(4) and I + 2 ops.  decor: additionally the diamond '
                 'over 2 names and the chain of 3 over 3 names',
 }
 ASSUMPTIONS = [
@@ -644,6 +778,9 @@ ASSUMPTIONS = [
     'a class without any mapping may lack __events__ altogether (read as the empty mapping); such classes are not '
     'registered (add_handler asserts the protocol)',
     'handlers stay alive during the whole history (weakness is C10); dispatching stays enabled (C04)',
+    'late mappings: a handler is served through the mapping it had when it was registered; for a handler registered '
+    'BEFORE its class was decorated again or a callback was replaced on the class, the events whose mapping changed '
+    'are left open (0 or 1 call), a handler registered afterwards must be served through the new mapping / function',
     'handler flavours: instances that are falsy (__bool__ False, __len__ 0) or equal to everything incl. None '
     '(__eq__ always True, with the per-handler hash constant, so two handlers never share a hash) are handlers like '
     'any other; handlers that are equal AND hash-equal to each other are exercised by the twins harness, with plain '
